@@ -525,7 +525,7 @@ pub fn c03(ctx: &mut Ctx, layer: &str) {
     let thorough = ctx.thorough;
     let (n_short3, n_host): (u64, usize) = match layer {
         "miri" => (0, if thorough { 16_000 } else { 800 }),
-        "vg" => (20_000, if thorough { 300_000 } else { 40_000 }),
+        "vg" => (if thorough { 400_000 } else { 20_000 }, if thorough { 3_000_000 } else { 40_000 }),
         "asan" => (if thorough { 3_000_000 } else { 200_000 }, if thorough { 6_000_000 } else { 300_000 }),
         _ => (if thorough { 1 << 24 } else { 2_000_000 }, if thorough { 50_000_000 } else { 3_000_000 }),
     };
@@ -947,6 +947,7 @@ pub fn c11(ctx: &mut Ctx, layer: &str) {
     let n_in: usize = match layer {
         "miri" => if ctx.thorough { 5_000 } else { 300 },
         "vg" => 10_000,
+        "asan" => 3_000_000,
         _ => {
             if ctx.thorough {
                 20_000_000
@@ -1000,6 +1001,7 @@ pub fn c12(ctx: &mut Ctx, layer: &str) {
     let n_in: usize = match layer {
         "miri" => if ctx.thorough { 3_000 } else { 90 },
         "vg" => 5_000,
+        "asan" => 1_500_000,
         _ => {
             if ctx.thorough {
                 8_000_000
